@@ -18,6 +18,7 @@ def bounded(tier, seed, rep):
     generator.run_c19_shuffle(rep, tier)
     generator.run_c19_builders(rep, tier, seed)
     generator.run_c19_repro(rep, tier, seed)
+    generator.run_c19_cross_process(rep, tier, seed)
 
 
 def replay(payload):
